@@ -397,6 +397,9 @@ def gen_deser(rng, thorough):
              ("path=p, filter='data'", None), ("members=ms, filter='data'", None), ("filter='data', members=f(t)", None), ("filter='tar'", (H, H)),
              ("filter='fully_trusted'", (H, H)), ("filter=flt", (H, H)), ("filter=tarfile.data_filter", "?"), ("members=ms, filter='tar'", (M, M)),
              ("members=f(t), filter=g", (L, L)), ("members=tools.safe(t)", (L, L)), ("members=a.b.c(t)", (L, L)), ("members=mk()(t)", (L, L)),
+             # a variable / attribute that merely is CALLED `data` is not the literal "data" (seeded change C17-m3 went through call_keywords, which
+             # reduces a name to its identifier and an attribute to its last component)
+             ("filter=data", (H, H)), ("filter=opts.data", (H, H)), ("members=f(t), filter=data", (L, L)), ("members=ms, filter=cfg.data", (M, M)), ("filter=tar", (H, H)),
              ("**kw", "?"), ("members=lambda: 1", (M, M)), ("filter=\"data\"", None), ("filter=b'data'", (H, H)), ("members=ms,\n    filter='data'", None)]
     recv = [("import tarfile", "t = tarfile.open(n)\nt.extractall({a})"), ("import tarfile", "with tarfile.open(n) as tf:\n    tf.extractall({a})"),
             ("import tarfile", "tarfile.open(n).extractall({a})"), ("import tarfile as tz", "t = tz.open(n)\nt.extractall({a})"),
